@@ -89,7 +89,7 @@ def _other_link_mid_frame(n=2):
     del _OTHER_LINKS[:-2]
 
 
-def build_system(n):
+def build_system(n, vw=8):
     from py4hw.logic.protocol.uart.serdes import UARTSerializer, UARTDeserializer
     from py4hw.logic.protocol.uart.clock import ClockGenerationAndRecovery
     with core.quiet():
@@ -99,7 +99,7 @@ def build_system(n):
     c = types.SimpleNamespace(sys=hw, n=n)
     c.s_ready, c.s_valid, c.s_v = W('s_ready'), W('s_valid'), W('s_v', 8)
     c.tx, c.txp, c.rxs, c.desync = W('tx'), W('tx_clk_pulse'), W('rx_sample'), W('desync')
-    c.d_ready, c.d_valid, c.d_v = W('d_ready'), W('d_valid'), W('d_v', 8)
+    c.d_ready, c.d_valid, c.d_v = W('d_ready'), W('d_valid'), W('d_v', vw)      # vw > 8: the byte arrives on a wider data bus
     ClockGenerationAndRecovery(hw, 'cgr', c.tx, c.desync, c.txp, c.rxs, 2 * n, 1)
     UARTSerializer(hw, 'ser', c.s_ready, c.s_valid, c.s_v, c.txp, c.tx)
     UARTDeserializer(hw, 'des', c.tx, c.rxs, c.d_ready, c.d_valid, c.d_v, c.desync)
@@ -125,7 +125,16 @@ def _shard(n, alpha, s_bits, family, merge, max_states, validate_every=997):
 def shards(tier):
     import itertools
     out = []
+    # directed closed-loop runs at large ratios (every cycle simulated; the BFS families stop at 16 clocks per bit): 4 bytes,
+    # back to back and with idle gaps, consumer always ready / ready every other cycle
+    for n in ((217, 300, 50, 512) if tier == 'quick' else (217, 300, 50, 512, 434, 1000, 33)):
+        for gap in (0, 3):
+            for rdy in (1, 2):
+                out.append({'family': 'directed', 'n': n, 'alphabet': [0x41, 0x00, 0xFF, 0x5A], 'gap_frames': gap, 'ready_every': rdy,
+                            'S_bit_periods': 0, 'S': 0})
     if tier == 'quick':
+        # the byte delivered on a data bus wider than 8 bits
+        out.append(dict(_shard(2, [0x00, 0xFF, 0x41], 1, 'alphabet6', False, 400000, validate_every=97), vw=16))
         for n in (2, 3):
             out.append(_shard(n, Q_ALPHA, 1, 'alphabet6', False, 400000, validate_every=97))
         # one long-stall graph (n = 2, alphabet {00, FF}, stalls <= 8 bit periods): the smallest graph that reaches the
@@ -153,7 +162,8 @@ def cost(d):
 
 
 BOUNDS = {
-    'quick': 'n in {2, 3} (4 and 6 system clocks per bit); all sequences over the alphabet {00, FF, 55, AA, 01, 80} with any '
+    'quick': 'directed closed-loop runs (4 bytes, back to back and with 3-frame gaps, consumer ready always / every other cycle) at 100, 434, 600 and '
+             '1024 clocks per bit (thorough also 66, 868, 2000); one graph with a 16-bit data bus; n in {2, 3} (4 and 6 system clocks per bit); all sequences over the alphabet {00, FF, 55, AA, 01, 80} with any '
              'idle gaps incl. none; consumer stalls of at most one bit period once a byte is pending, unconstrained otherwise; '
              '<= 2 bytes outstanding; reachable product graph closed, full state key; plus one graph at n = 2 over {00, FF} with stalls '
              '<= 8 bit periods',
@@ -181,7 +191,7 @@ def make_build(d):
     n = d['n']
 
     def build():
-        c = build_system(n)
+        c = build_system(n, d.get('vw', 8))
         c.ms = ref.mon_init()
         # path bookkeeping, carried with each state but NOT part of the dedup key (it describes the BFS-tree path by which the
         # state was first reached, i.e. exactly the trace reported for a violation): (cycle, ready edges so far, ready of
@@ -372,7 +382,53 @@ def run_trace(d, trace, keep=40):
     return clause, detail, log[-keep:]
 
 
+def run_directed(d):
+    """closed-loop producer (offers the next byte as soon as the previous one was accepted and the gap has passed) and a
+    periodic consumer; the input sequence it produces is then judged by run_trace like any other trace"""
+    with core.quiet():
+        c = make_build(d)()
+    n, todo = d['n'], list(d['alphabet'])
+    frame = FRAME_CYCLES(n)
+    trace, wait, cyc = [], 0, 0
+    horizon = (len(todo) + 3) * frame * (1 + d['gap_frames']) + 4 * frame
+    sent = 0
+    while cyc < horizon:
+        rdy = 1 if cyc % d['ready_every'] == 0 else 0
+        hold = c.ms[0]
+        if hold is not None:
+            x = (1, hold, rdy)
+        elif sent < len(todo) and wait <= 0:
+            x = (1, todo[sent], rdy)
+        else:
+            x = (0, 0, rdy)
+        with core.quiet():
+            step(c, x)
+        trace.append(list(x))
+        wait -= 1
+        for kind, b in c.ev:
+            if kind == 'accept':
+                sent += 1
+                wait = d['gap_frames'] * frame
+        cyc += 1
+        if c.viol is not None:
+            break
+    clause, det2, log = run_trace(d, trace)
+    st = c.stats
+    res = {'configs': 1, 'states': 0, 'transitions': len(trace), 'traces_validated_against_impl': 1, 'evaluations': st['accepts'] + st['deliveries'],
+           'distinct_nontrivial': st['deliveries'], 'distinct_outcomes': 2, 'vacuous_ok': True, 'violations': [],
+           'samples': [{'shard': d, 'cycles': len(trace), 'accepted': st['accepts'], 'delivered': st['deliveries']}]}
+    if clause is None and st['deliveries'] != len(todo):
+        clause, det2 = 'lost', {'accepted': st['accepts'], 'delivered': st['deliveries'], 'offered': len(todo), 'cycles': len(trace)}
+    if clause is not None:
+        res['violations'].append({'sig': 'C17:n=%d:%s' % (n, clause), 'shard': d, 'trace': [],     # regenerated by the closed-loop driver
+                                  'detail': {'clause': clause, 'history': det2, 'directed': True, 'trace_cycles': len(trace),
+                                             'last_cycles': log[-12:]}})
+    return res
+
+
 def run_shard(d):
+    if d['family'] == 'directed':
+        return run_directed(d)
     ex = explore(d)
     st = ex.c.stats
     res = {'configs': 1, 'states': ex.states, 'transitions': ex.transitions,
@@ -447,5 +503,8 @@ def finish(cov, results, tier):
 
 def replay(v):
     d = v['shard']
+    if d.get('family') == 'directed':
+        r = run_directed(d)
+        return {'shard': d, 'violates': bool(r['violations']), 'detail': [x['detail'] for x in r['violations']][:1]}
     clause, detail, log = run_trace(d, v['trace'], keep=30)
     return {'shard': d, 'violates': clause is not None, 'clause': clause, 'detail': detail, 'last_cycles': log}
